@@ -39,6 +39,9 @@ let xl (f : string) (a : string list) : string =
   | "lowEntropyEncodedPayloadLen", [n; m] ->
     (match xl_protocol_lowEntropyEncodedPayloadLen (z n) (z m) with None -> "PANIC" | Some (v, e) -> zs v ^ " " ^ bool_s e)
   | "maxFragmentSize", [mtu; t; m] -> let (v, e) = xl_protocol_maxFragmentSize (z mtu) (z t) (z m) in zs v ^ " " ^ bool_s e
+  | "increaseNonce", [en; nonce] ->
+    (match xl_cipher_increaseNonce (en = "1") (List.map xb_z_of_n (bytes_of_hex nonce)) with
+     | None -> "PANIC" | Some l -> hex_of_bytes (List.map xb_n_of_z l))
   | "isSessionProtocol", [p] -> bool_s (xl_protocol_isSessionProtocol (z p))
   | "isDataProtocol", [p] -> bool_s (xl_protocol_isDataProtocol (z p))
   | "isAckProtocol", [p] -> bool_s (xl_protocol_isAckProtocol (z p))
@@ -74,6 +77,7 @@ let model (f : string) (a : string list) : string =
     if small n then (match m_le_encoded_len (z n) (z m) with Some v -> zs v ^ " 0" | None -> "0 1") else "-"
   | "maxFragmentSize", [mtu; t; m] ->
     if small mtu then (match m_max_fragment (z mtu) (z t) (z m) with Some v -> zs v ^ " 0" | None -> "0 1") else "-"
+  | "increaseNonce", [en; nonce] -> if en = "1" && nonce <> "-" then hex_of_bytes (m_nonce_inc (bytes_of_hex nonce)) else "-"
   | "isSessionProtocol", [p] -> if below p p64 then bool_s (m_wire_is_session (nz p)) else "-"
   | "isDataProtocol", [p] -> if below p p64 then bool_s (m_wire_is_data (nz p)) else "-"
   | "isAckProtocol", [p] -> if below p p64 then bool_s (m_wire_is_ack (nz p)) else "-"
